@@ -1,5 +1,7 @@
 import Properties.C01
 import Properties.C01Sites
+import Properties.C01Prims
+import Properties.C01Walk
 #print axioms Hive.C01.eq_of_perm_of_sorted
 #print axioms Hive.C01.sortBy_eq_of_perm
 #print axioms Hive.C01.id_order_invariant
@@ -10,3 +12,27 @@ import Properties.C01Sites
 #print axioms Hive.C01Sites.sites_ok
 #print axioms Hive.C01Sites.anchors_present
 #print axioms Hive.C01Sites.reviewed_current
+#print axioms Hive.C01.upsert_perm
+#print axioms Hive.C01.modifyVehicle_perm
+#print axioms Hive.C01.modifyStation_perm
+#print axioms Hive.C01.modifyBase_perm
+#print axioms Hive.C01.modifyRequest_perm
+#print axioms Hive.C01.removeRequest_perm
+#print axioms Hive.C01.planAll_perm
+#print axioms Hive.C01.updateOrder_permEnt
+#print axioms Hive.C01.PermEnt.uniqueIds
+#print axioms Hive.C01.nearest_sameSets
+#print axioms Hive.C01.entitiesAtCell_sameSets
+#print axioms Hive.C01.exit_permU
+#print axioms Hive.C01.enter_permW
+#print axioms Hive.C01.transition_permW
+#print axioms Hive.C01.move_permW
+#print axioms Hive.C01.charge_permW
+#print axioms Hive.C01.performUpdate_permW
+#print axioms Hive.C01.defaultUpdate_permW
+#print axioms Hive.C01.vehicleUpdates_permW
+#print axioms Hive.C01.applyInstructions_permW
+#print axioms Hive.C01.control_step_order_independent
+#print axioms Hive.C01.control_run_order_independent
+#print axioms Hive.C01.observations_agree
+#print axioms Hive.C01.permW_of_perm
